@@ -758,7 +758,12 @@ def extra_checks(ctx, cases, impl_lines, model_lines):
                     STATS["crash_images"] += 1
                 if o[2][0] == 0 and ent[0] == 1:
                     STATS["real_eisdir_failures"] += 1
-    return []
+    # "every chunk of acknowledged data the completed rotation retains remains intact" also when a step cannot be a
+    # rename: archives on ANOTHER file system are moved by copy + delete, compressed ones by stream copy (C05's
+    # histories with the archive directory behind a symbolic link to another mount, records of 1 byte .. 70 KB)
+    from gen import xcheck
+    return xcheck.borrow(ctx, "C05", "a rotation step that has to copy (archives on another file system) keeps the data whole",
+                         lambda c: isinstance(c[1], list) and len(c[1]) > 4 and c[1][0] == 1 and c[1][4] == 3, n=120, seed_salt=71)
 
 
 def extra_coverage(ctx):
